@@ -73,7 +73,17 @@ fn main() {
     let parts = (def.parts)();
 
     if let Some(path) = replay {
-        std::process::exit(replay_file(def.id, &parts, &path, true));
+        let mut rc = replay_file(def.id, &parts, &path, true);
+        // a case found in the second build profile (no debug assertions, wrapping arithmetic) may only fail there
+        if rc == 0 && std::env::var("RSV_CHILD").is_err() {
+            if let Some(bin) = wrap_binary() {
+                println!("replaying in the second build profile (no debug assertions, wrapping arithmetic)");
+                if let Ok(st) = std::process::Command::new(bin).arg(def.id).arg("--replay").arg(&path).env("RSV_CHILD", "1").status() {
+                    rc = st.code().unwrap_or(2);
+                }
+            }
+        }
+        std::process::exit(rc);
     }
 
     // global watchdog: a wedged check ends as inconclusive instead of hanging
@@ -131,9 +141,10 @@ fn main() {
         }
         part.run(&mut run);
     }
-    // thorough tier of C06 / C12: the same cases in a second build with wrapping arithmetic and
-    // without debug assertions (what `cargo build --release` gives users), DESIGN.md 2.2
-    if tier == Tier::Thorough && (def.id == "C06" || def.id == "C12") && std::env::var("RSV_CHILD").is_err() && !run.failed() {
+    // every check, both tiers: a quarter of the cases again in a SECOND BUILD PROFILE - wrapping arithmetic and no
+    // debug assertions, i.e. what `cargo build --release` gives users (DESIGN.md 2.2). Side effects that live inside
+    // debug_assert!, and arithmetic that only wraps silently, behave differently there.
+    if std::env::var("RSV_CHILD").is_err() && std::env::var("RSV_NO_SECOND_PROFILE").is_err() && only.is_none() && !run.failed() {
         wrap_profile(&mut run);
     }
     // thorough tier: coverage-guided deepening with the same oracles (DESIGN.md 2.7)
@@ -145,27 +156,39 @@ fn main() {
     std::process::exit(run.finish());
 }
 
+/// builds (incrementally) and returns the harness binary of the second profile
+fn wrap_binary() -> Option<std::path::PathBuf> {
+    use std::process::Command;
+    let exe = std::env::current_exe().ok()?;
+    let harness = exe.parent().and_then(|p| p.parent()).and_then(|p| p.parent())?;
+    let build = |extra: &[&str]| {
+        let mut args = vec!["build", "--profile", "wrap", "-p", "rsv", "--offline"];
+        args.extend_from_slice(extra);
+        Command::new("flock").arg(harness.join("target/.build.lock")).arg("cargo").args(&args).env("CARGO_NET_OFFLINE", "true").current_dir(harness).output()
+    };
+    let bin = harness.join("target/wrap/rsv");
+    let ok = matches!(&build(&[]), Ok(o) if o.status.success()) || matches!(&build(&["--no-default-features"]), Ok(o) if o.status.success());
+    if ok && bin.exists() {
+        Some(bin)
+    } else {
+        None
+    }
+}
+
 fn wrap_profile(run: &mut Run) {
     use std::process::Command;
-    let Ok(exe) = std::env::current_exe() else { return };
-    let Some(harness) = exe.parent().and_then(|p| p.parent()).and_then(|p| p.parent()) else { return };
-    let build = Command::new("cargo")
-        .args(["build", "--profile", "wrap", "-p", "rsv", "--offline"])
-        .env("CARGO_NET_OFFLINE", "true")
-        .current_dir(harness)
-        .output();
-    let bin = harness.join("target/wrap/rsv");
-    if !matches!(&build, Ok(o) if o.status.success()) || !bin.exists() {
+    let Some(bin) = wrap_binary() else {
         run.extra.insert("wrap_profile".into(), "unavailable: build failed".into());
+        eprintln!("NOTE: the second build profile (no debug assertions, wrapping arithmetic) could not be built; that pass is skipped");
         return;
-    }
+    };
     let out = Command::new(&bin)
         .arg(run.id)
-        .arg("thorough")
+        .arg(if run.tier == Tier::Thorough { "thorough" } else { "quick" })
         .env("RSV_CHILD", "1")
         .env("RSV_NO_FUZZ", "1")
         .env("RSV_SCALE", format!("{}", run.scale * 0.25))
-        .env("VERIF_SEED", format!("{}", run.seed))
+        .env("VERIF_SEED", format!("{}", run.seed ^ 0x2D))
         .output();
     let Ok(out) = out else {
         run.extra.insert("wrap_profile".into(), "unavailable: cannot run".into());
